@@ -6,7 +6,7 @@ from ..graph import Graph
 from ..symb import feasible_armed_reach, feasible_reach
 from ..inteval import ieval, pin_conditions
 from ..expr import access_path, path_str, reaching_defs, norm_cond, origins, leaves, defs_in_node
-from .common import strip_casts, short, comparison, once_init, iteration_starts
+from .common import strip_casts, short, comparison, once_init, iteration_starts, subtree_through_locals
 
 UNITS = ['sdk/src/resource/resource.cc', 'sdk/src/resource/resource_detector.cc', 'sdk/src/common/env_variables.cc',
          'sdk/src/logs/logger.cc', 'sdk/src/metrics/state/metric_collector.cc', 'sdk/src/trace/span.cc', 'sdk/src/common/disabled.cc']
@@ -34,18 +34,24 @@ NOT_DECIDED = 'exact values for every string; case-insensitive boolean literals 
 def rule_r1(ck, prog, rule='C18.R1'):
     f = prog.function('sdk::resource::Resource::Merge')
     other = f.params[0]
-    cons = [n for n in f.nodes if n['k'] == 'construct' and n.get('copymove') == 'copy' and n.get('args') and access_path(f, n['args'][0])[-1:] == ('attributes_',)]
+    # (the union may be built in a file-local helper: helpers are inlined and their parameters resolved to the caller's expressions)
+    gm = Graph(prog, f, inline=lambda caller, call, callee, depth: bool(callee.d.get('local')), sync_lambdas=False, max_depth=2)
+    cons_p = [p for p in gm.points if p.n is not None and p.n['k'] == 'construct' and p.n.get('copymove') == 'copy' and p.n.get('args') and
+              access_path(p.f, p.n['args'][0], p.ctx)[-1:] == ('attributes_',)]
+    cons = [p.n for p in cons_p]
     ok = False
-    if cons:
-        ap = access_path(f, cons[0]['args'][0])
+    if cons_p:
+        ap = access_path(cons_p[0].f, cons_p[0].n['args'][0], cons_p[0].ctx)
         ok = ap == ('param:' + other['name'], 'attributes_')
     ck.verdict(ok, rule, f, 'merge-base-is-argument', cons[0] if cons else None, 'result starts as a copy of the argument\'s attributes' if ok else
                'Merge does not start from the argument\'s attributes: on a shared key the receiver\'s value wins instead of the argument\'s')
-    ins = [n for n in f.nodes if n['k'] == 'call' and strip_targs(n.get('c', '')).rsplit('::', 1)[-1] == 'insert']
+    ins_p = [p for p in gm.points if p.n is not None and p.n['k'] == 'call' and strip_targs(p.n.get('c', '')).rsplit('::', 1)[-1] == 'insert']
+    ins = [p.n for p in ins_p]
     ok = False
-    if ins:
-        paths = [access_path(f, f.nodes[i]['obj']) for a in ins[0]['args'] for i in f.subtree(a) if f.nodes[i]['k'] == 'call' and f.nodes[i].get('obj') is not None and
-                 strip_targs(f.nodes[i].get('c', '')).rsplit('::', 1)[-1] in ('begin', 'end')]
+    if ins_p:
+        ip = ins_p[0]
+        paths = [access_path(ip.f, ip.f.nodes[i]['obj'], ip.ctx) for a in ip.n['args'] for i in ip.f.subtree(a) if ip.f.nodes[i]['k'] == 'call' and ip.f.nodes[i].get('obj') is not None and
+                 strip_targs(ip.f.nodes[i].get('c', '')).rsplit('::', 1)[-1] in ('begin', 'end')]
         ok = len(paths) == 2 and all(p == ('this', 'attributes_') for p in paths)
     ck.verdict(ok, rule, f, 'merge-inserts-receiver', ins[0] if ins else None, 'receiver\'s attributes inserted (existing keys kept)' if ok else
                'Merge does not insert the receiver\'s attributes into the copy of the argument\'s')
@@ -82,13 +88,26 @@ def rule_r1(ck, prog, rule='C18.R1'):
                 out.add('?')
                 continue
             a = strip_casts(f, cons_[0]['args'][1])
-            if a['k'] == 'cond':
-                t = eval3(f, a['cnd'], dict(env), pins)
-                if t is None:
-                    out.add('?')
+            unknown = False
+            for _hop in range(4):
+                if a['k'] == 'ref' and a.get('sk') == 'local':
+                    # a named (reference) local for the chosen URL
+                    a2 = once_init(f, a['i'])
+                    if 'i' not in a2 or a2['i'] == a['i']:
+                        break
+                    a = strip_casts(f, a2['i'])
                     continue
-                a = strip_casts(f, a['a'] if t else a['b'])
-            a = once_init(f, a['i']) if a['k'] == 'ref' else a
+                if a['k'] == 'cond':
+                    t = eval3(f, a['cnd'], dict(env), pins)
+                    if t is None:
+                        unknown = True
+                        break
+                    a = strip_casts(f, a['a'] if t else a['b'])
+                    continue
+                break
+            if unknown:
+                out.add('?')
+                continue
             out.add(path_str(access_path(f, a['i'])) if 'i' in a else '?')
         return out
     conds = [n for n in f.nodes if n['k'] in ('cond', 'if')]
@@ -135,6 +154,28 @@ def rule_r1(ck, prog, rule='C18.R1'):
             return False
         core, pol = norm_cond(lab[1], lab[0])
         cn = lab[1].nodes[core]
+        truth_ = lab[2] if pol else (not lab[2])
+        # count(service.name) == 0 / != 0 / > 0, contains(...), or the bare count used as a truth value
+        cc = comparison(lab[1], core)
+        probe = None
+        if cc and cn['k'] == 'binop':
+            for x, y in ((cc[1], cc[2]), (cc[2], cc[1])):
+                xn = strip_casts(lab[1], x)
+                if xn['k'] == 'call' and strip_targs(xn.get('c', '')).rsplit('::', 1)[-1] == 'count' and strip_casts(lab[1], y).get('v') == 0:
+                    probe = (xn, cc[0] if x == cc[1] else FLIP_.get(cc[0], cc[0]))
+        elif cn['k'] == 'call' and strip_targs(cn.get('c', '')).rsplit('::', 1)[-1] in ('count', 'contains'):
+            probe = (cn, '!=')
+        if probe is not None:
+            xn, op = probe
+            if xn.get('obj') is None or access_path(f, xn['obj']) not in written:
+                return False
+            if not any(f.nodes[i]['k'] == 'ref' and f.nodes[i]['name'] == 'kServiceName' for a_ in xn.get('args', []) for i in list(f.subtree(a_)) + [a_]):
+                return False
+            if op == '==':
+                return truth_ is True
+            if op in ('!=', '>'):
+                return truth_ is False
+            return False
         if cn['k'] == 'call' and cn.get('op') in ('==', '!='):
             sub = [f.nodes[i] for i in f.subtree(core)]
             if any(n['k'] == 'ref' and n['name'] == 'kServiceName' for n in sub) and any(n['k'] == 'call' and strip_targs(n.get('c', '')).rsplit('::', 1)[-1] == 'end' for n in sub):
@@ -164,6 +205,75 @@ BOUNDED_CI = ('strncasecmp', '_strnicmp', 'strnicmp')
 BOUNDED_CS = ('strncmp', 'memcmp')
 
 
+def _bool_table_form(ck, prog, f, g, rd, out, rule):
+    """the spellings live in a constant table {text, result} walked by a range-for: every row is a documented spelling with its
+    value (case-insensitively "true" -> true, "false" -> false), the store takes the row's result, and it is gated by a
+    whole-string case-insensitive comparison of the raw text with the row's text.  Returns True when the form was recognised
+    (a verdict has been given)."""
+    for lp in [n for n in f.nodes if n['k'] == 'forrange']:
+        rn = strip_casts(f, lp['range'])
+        if rn['k'] != 'ref' or rn.get('sk') not in ('static_local', 'global', 'local'):
+            continue
+        decl = [d for n in f.nodes if n['k'] == 'declstmt' for d in n['decls'] if d['id'] == rn.get('id')]
+        if not decl or decl[0].get('init') is None or 'const' not in (decl[0].get('t') or ''):
+            continue
+        top = f.nodes[decl[0]['init']]
+        if top['k'] != 'initlist':
+            continue
+        rows = []
+        for ch in top.get('ch', []):
+            rnod = f.nodes[ch]
+            if rnod['k'] != 'initlist':
+                rows = None
+                break
+            texts = [f.nodes[i].get('s') for i in list(f.subtree(ch)) if f.nodes[i]['k'] == 'str']
+            bools = [f.nodes[i].get('v') for i in rnod.get('ch', []) if strip_casts(f, i)['k'] == 'lit' and (strip_casts(f, i).get('t') == 'bool' or strip_casts(f, i).get('v') in (0, 1))]
+            bools = [strip_casts(f, i).get('v') for i in rnod.get('ch', []) if strip_casts(f, i)['k'] == 'lit' and 'v' in strip_casts(f, i)]
+            if len(texts) != 1 or len(bools) != 1:
+                rows = None
+                break
+            rows.append((texts[0], bool(bools[0])))
+        if not rows:
+            continue
+        var = lp.get('var')
+        body = set(f.subtree(lp['body']))
+        stores = [p for p in g.points if p.f is f and p.n is not None and p.n['i'] in body and p.n['k'] == 'binop' and p.n['op'] == '=' and
+                  strip_casts(f, p.n['lhs']).get('id') == out['id'] and
+                  any(f.nodes[i]['k'] == 'ref' and f.nodes[i].get('id') == var for i in f.subtree(p.n['rhs']))]
+        cmps = [n for n in f.nodes if n['i'] in body and n['k'] == 'call' and strip_targs(n.get('c', '') or '').rsplit('::', 1)[-1] in WHOLE_CI + WHOLE_CS + BOUNDED_CI + BOUNDED_CS and
+                any(f.nodes[i]['k'] == 'ref' and f.nodes[i].get('id') == var for a in n.get('args', []) if a is not None and a >= 0 for i in f.subtree(a))]
+        if not stores or not cmps:
+            continue
+        bad = None
+        wrong = [(t, v) for (t, v) in rows if not ((t.lower() == 'true' and v is True) or (t.lower() == 'false' and v is False))]
+        if wrong:
+            bad = 'the spelling table holds %r -> %s, which is not a documented boolean spelling' % wrong[0]
+        names = {strip_targs(n['c']).rsplit('::', 1)[-1] for n in cmps}
+        if bad is None and not names <= set(WHOLE_CI):
+            bad = '%s is not a whole-string case-insensitive comparison' % ', '.join(sorted(names - set(WHOLE_CI)))
+        if bad is None:
+            pm = f.parent_map()
+            pins = {}
+            for n in cmps:
+                x = n['i']
+                while x in pm and f.nodes[pm[x]]['k'] in ('cast', 'paren'):
+                    x = pm[x]
+                par = f.nodes[pm[x]] if x in pm else None
+                if par is not None and comparison(f, par['i']):
+                    pins[par['i']] = (par.get('op') == '!=')          # "different"
+                elif par is not None and par['k'] == 'unop' and par['op'] == '!':
+                    pins[par['i']] = False
+                else:
+                    pins[n['i']] = True                                # non-zero = different
+            if feasible_reach(g, [g.entry], stores, pins=pins) is not None:
+                bad = 'the row\'s result can be stored although the raw text did not compare equal to the row\'s text'
+        ck.verdict(bad is None, rule, f, 'true-needs-whole-string-match', stores[0].n,
+                   'table form: %d rows, each a documented spelling, stored only behind a whole-string case-insensitive match of its row' % len(rows) if bad is None else
+                   'the boolean reader accepts more than the documented spellings: ' + bad)
+        return True
+    return False
+
+
 def rule_r6(ck, prog, rule='C18.R6'):
     """Boolean spellings: the store of `true` into the out-parameter of the boolean reader is gated by a *whole-string*,
     case-insensitive comparison of the raw text with "true" (pinned false => the store is unreachable).  A bounded comparison
@@ -175,6 +285,8 @@ def rule_r6(ck, prog, rule='C18.R6'):
     stores = [p for p in g.points if p.f is f and p.n is not None and p.n['k'] == 'binop' and p.n['op'] == '=' and
               strip_casts(f, p.n['lhs']).get('id') == out['id'] and strip_casts(f, p.n['rhs'])['k'] == 'lit' and strip_casts(f, p.n['rhs']).get('v') == 1]
     if not stores:
+        if _bool_table_form(ck, prog, f, g, rd, out, rule):
+            return
         ck.inconclusive(rule, f, 'true-needs-whole-string-match', None, 'no store of the constant true into the out-parameter found')
         return
     cmp_calls = []
@@ -373,17 +485,32 @@ def rule_r2(ck, prog, rule='C18.R2'):
                 a1 = strip_casts(f, n['args'][1])
                 if a1['k'] == 'unop' and a1['op'] == '&':
                     endptrs.add(strip_casts(f, a1['e']).get('id'))
+        # nodes inside the strto* calls themselves (`&actual_end` as an argument) are not uses of what the call reported
+        in_strto = set()
+        for n in f.nodes:
+            if n['k'] == 'call' and strip_targs(n.get('c', '')).rsplit('::', 1)[-1].startswith('strto'):
+                in_strto |= set(f.subtree(n['i'])) | {n['i']}
+
+        def from_endptr(x):
+            return any(f.nodes[i]['k'] == 'ref' and f.nodes[i].get('id') in endptrs and i not in in_strto for i in list(subtree_through_locals(f, x)) + [x])
         unconsumed_pins, erange_pins = {}, {}
         for n in f.nodes:
             c = comparison(f, n['i'])
             if not c or c[0] not in ('==', '!='):
                 continue
-            if any(strip_casts(f, x).get('id') in endptrs for x in (c[1], c[2])) and not any(strip_casts(f, x).get('null') for x in (c[1], c[2])):
+            derived = [from_endptr(x) for x in (c[1], c[2])]
+            if any(derived) and not any(strip_casts(f, x).get('null') for x in (c[1], c[2])):
+                # the end pointer strto* reported (or a length computed from it) compared with the end / the length of the text
                 unconsumed_pins[n['i']] = (c[0] == '!=')
             if any(f.nodes[i]['k'] == 'call' and strip_targs(f.nodes[i].get('c', '')) == '__errno_location' for i in f.subtree(n['i'])):
                 erange_pins[n['i']] = (c[0] == '==')
         bad = None
         n_ret = 0
+        any_endcmp = any(comparison(f, n['i']) and any(from_endptr(x) for x in comparison(f, n['i'])[1:])
+                         and not any(strip_casts(f, x).get('null') for x in comparison(f, n['i'])[1:]) for n in f.nodes)
+        if endptrs and not unconsumed_pins and any_endcmp:
+            ck.inconclusive(rule, f, 'out-parameter', None, 'the test "the whole text was consumed" is not an equality of the end pointer (or a length derived from it): not decided')
+            continue
         for r in g.returns():
             rv = strip_casts(f, r.n['e']).get('v')
             defs = [g.points[d] for (v, d) in rd.get(r.id, ()) if v == out['id']]
@@ -398,6 +525,10 @@ def rule_r2(ck, prog, rule='C18.R2'):
                 # a parsed value
                 if rv == 0:
                     bad = (r, dp, 'a parsed (possibly partial) value of the out-parameter survives to a "return false"')
+                elif not endptrs and not erange_pins:
+                    # no strto* / errno in this reader (boolean spellings, raw strings): what reaches "return true" is decided by
+                    # comparisons with literals (C18.R6), not by a parse that can stop early
+                    continue
                 elif feasible_armed_reach(g, [dp], [x for x in defs if x is not dp], [r], pins=unconsumed_pins) is not None or \
                         feasible_armed_reach(g, [dp], [x for x in defs if x is not dp], [r], pins=erange_pins) is not None:
                     bad = (r, dp, 'a parsed value reaches "return true" without the whole string having been consumed / errno checked')
@@ -422,6 +553,7 @@ def rule_r2(ck, prog, rule='C18.R2'):
                    'the duration out-parameter can be assigned on a path that reports failure (or success is reported without assigning it)')
 
 
+FLIP_ = {'<': '>', '>': '<', '<=': '>=', '>=': '<=', '==': '==', '!=': '!='}
 RATIO = re.compile(r'std::ratio<(\d+)(?:, (\d+))?>')
 
 
@@ -448,13 +580,15 @@ def rule_r3(ck, prog, rule='C18.R3'):
 
 def rule_r4(ck, prog, rule='C18.R4'):
     f = prog.function('sdk::common::GetTimeoutFromString')
-    g = Graph(prog, f, inline=None, sync_lambdas=False)
-    acc = [p for p in g.points if p.n is not None and p.n['k'] == 'binop' and p.n['op'] == '=' and strip_casts(f, p.n['lhs'])['k'] == 'ref' and
-           any(f.nodes[i]['k'] == 'binop' and f.nodes[i]['op'] == '*' and f.nodes[f.nodes[i]['rhs']].get('v') == 10 for i in f.subtree(p.n['rhs']))]
+    # (the digit loop may live in a file-local helper of the parser: file-local callees other than the unit conversion are inlined)
+    g = Graph(prog, f, inline=lambda caller, call, callee, depth: bool(callee.d.get('local')) and callee.name != 'ConvertTimeout', sync_lambdas=False, max_depth=2)
+    acc = [p for p in g.points if p.n is not None and p.n['k'] == 'binop' and p.n['op'] == '=' and strip_casts(p.f, p.n['lhs'])['k'] == 'ref' and
+           any(p.f.nodes[i]['k'] == 'binop' and p.f.nodes[i]['op'] == '*' and p.f.nodes[p.f.nodes[i]['rhs']].get('v') == 10 for i in p.f.subtree(p.n['rhs']))]
     if not acc:
         ck.inconclusive(rule, f, 'accumulation-bounded', None, 'digit accumulation not found')
     else:
-        vid = strip_casts(f, acc[0].n['lhs'])['id']
+        vid = strip_casts(acc[0].f, acc[0].n['lhs'])['id']
+        f_acc = acc[0].f
 
         def bound_edge(a, b, lab):
             if not lab or not isinstance(lab[0], int):
@@ -463,7 +597,7 @@ def rule_r4(ck, prog, rule='C18.R4'):
             c = comparison(lab[1], core)
             if not c:
                 return False
-            sub = [f.nodes[i] for i in f.subtree(core)]
+            sub = [lab[1].nodes[i] for i in lab[1].subtree(core)]
             has_v = any(n['k'] == 'ref' and n.get('id') == vid for n in sub)
             has_max = any(n['k'] == 'call' and strip_targs(n.get('c', '')).startswith('std::numeric_limits::max') for n in sub)
             return has_v and has_max
